@@ -18,7 +18,7 @@ for root,dirs,files in os.walk(ws):
     dirs[:]=[d for d in dirs if d not in SKIP_DIRS]
     for f in files:
         p=os.path.join(root,f); rel=os.path.relpath(p,ws)
-        if rel.startswith('lean/Karp/Gen/'): continue
+        if rel.startswith('lean/Karp/Gen/') or rel.startswith('tools/') or rel.startswith('manifest/') and not rel.endswith(prop+'.json'): continue
         b=os.path.join(base,rel)
         if not os.path.exists(b) or not filecmp.cmp(p,b,shallow=False):
             changed.append(rel)
